@@ -49,6 +49,7 @@ pub trait Shapes {
     fn a_wide(&self, s: &[u64]);
     fn a_zst(&self, s: &[Z0]);
     fn a_mut_bytes(&mut self, s: &mut [u8]);
+    fn a_mut_wide(&mut self, s: &mut [u64]) -> usize;
     fn a_str(&self, s: &str);
     fn a_opt(&self, o: Option<u32>);
     fn a_opt_ref(&self, o: Option<&u64>);
@@ -109,6 +110,16 @@ impl Shapes for Sh {
             s[i] = self.wr[i];
             i += 1;
         }
+    }
+    fn a_mut_wide(&mut self, s: &mut [u64]) -> usize {
+        self.rec.ptr.set(s.as_ptr() as usize);
+        self.rec.len.set(s.len());
+        let mut i = 0;
+        while i < s.len() && i < 3 {
+            s[i] ^= self.k;
+            i += 1;
+        }
+        s.len()
     }
     fn a_str(&self, s: &str) {
         self.rec.ptr.set(s.as_ptr() as usize);
@@ -450,9 +461,24 @@ nd::harnesses! {
         let wr = s.wr;
         let k = s.k;
         let which: u8 = nd::any();
-        nd::assume(which < 3);
+        nd::assume(which < 4);
         let mut obj = trait_obj!(&mut s as Shapes);
         match which {
+            3 => {
+                // a mutable slice of 8-byte elements: same address, same ELEMENT count, writes land element-wise
+                let orig: [u64; 3] = nd::any();
+                let mut data = orig;
+                let l = nd::range(0, 3);
+                let base = data[..l].as_ptr() as usize;
+                let r = obj.a_mut_wide(&mut data[..l]);
+                drop(obj);
+                assert!(r == l && s.rec.ptr.get() == base && s.rec.len.get() == l, "a mutable slice keeps its element count and address");
+                let mut i = 0;
+                while i < 3 {
+                    if i < l { assert!(data[i] == orig[i] ^ k); } else { assert!(data[i] == orig[i]); }
+                    i += 1;
+                }
+            }
             0 => {
                 let orig: [u8; 4] = nd::any();
                 let mut data = orig;
